@@ -157,7 +157,10 @@ def concrete_args(choice, cfg, rng):
         elif tag == "alg":
             name = c[1].split(".")[-1].rstrip("'>")
             algs = K.all_algorithms()
-            args.append(algs[name]() if name in algs and name != "Algorithm" else algs["Auto"]())
+            if name == "Algorithm" and cfg.get("algname") in algs:
+                args.append(algs[cfg["algname"]]())          # the named admissible algorithm of the failing configuration
+            else:
+                args.append(algs[name]() if name in algs and name != "Algorithm" else algs["Auto"]())
         elif tag == "int":
             k = cfg.get("k", "sym")
             n = args[0].shape[0] if args else 3
